@@ -47,6 +47,14 @@ def run(tier):
         return ck.finish()
     rng = random.Random(ck.seed)
     def witness(src):
+        if src.startswith("//cli\n"):
+            from . import c18 as c18_
+            import subprocess as sp
+            if not c18_.build_penne(ck): return None
+            wd = os.path.join(ck.work, "witness-cli"); os.makedirs(wd, exist_ok=True)
+            open(os.path.join(wd, "w.pn"), "w").write(src)
+            p = sp.run([c18_.PENNE, "emit", "--color=never", "w.pn"], cwd=wd, capture_output=True, timeout=300)
+            return "impl-failure:stack-overflow:cli-nesting" if "overflowed its stack" in p.stderr.decode(errors="replace") else None
         f = C.run_harness("ir", [("w", src)], ck.work + "/witness", timeout=120).get("w", ["missing"])
         return classify(f, src)
     ck.witness_runner = witness
@@ -122,6 +130,20 @@ def run(tier):
         kinds[kind.split(":")[0]] += 1
         if key is not None:
             ck.violation(key, "compilation ended abnormally: %s" % f[0][:200], "input kind: %s\nsource:\n%s" % (kind, src))
+    # the same nesting cases through the real command line tool (an unoptimised debug build, the main thread's
+    # 8 MiB stack): the harness is compiled with opt-level 1 and does not see what this build sees
+    from . import c18
+    import shutil, subprocess
+    if c18.build_penne(ck):
+        root = os.path.join(ck.work, "cli"); shutil.rmtree(root, ignore_errors=True); os.makedirs(root)
+        for cid, src, kind in [c for c in cases if c[2] == "nesting"]:
+            open(os.path.join(root, cid + ".pn"), "w").write(src)
+            p = subprocess.run([c18.PENNE, "emit", "--color=never", cid + ".pn"], cwd=root, capture_output=True, timeout=300)
+            err = p.stderr.decode(errors="replace")
+            if p.returncode in (0, 1) and "panicked" not in err: stats["cli:" + ("ok" if p.returncode == 0 else "err")] += 1; continue
+            key = "impl-failure:stack-overflow:cli-nesting" if "overflowed its stack" in err else "impl-failure:cli-exit-%d" % p.returncode
+            stats[key] += 1
+            ck.violation(key, "penne emit on a program nested %s deep ended with status %d: %s" % (cid[1:-1], p.returncode, err.strip().splitlines()[-1][:120] if err.strip() else ""), "input kind: nesting (command line tool)\nsource:\n%s" % src[:400])
     ck.log("crash stream: %d inputs %s" % (len(cases), dict(stats.most_common(12))))
     if not proof_ok:
         ck.violation("tie-broken:proof", "Props/C02.v no longer checks", getattr(ck, "proof_output", "")[-2000:])
